@@ -12,10 +12,51 @@ use serde_json::{json, Value};
 // ---------------------------------------------------------------------------------------------
 // alignment
 
+/// archives that are re-opened with new_append before the entry under test is started
+fn append_base(label: &str) -> Option<Vec<u8>> {
+    let small = |n: &str| vec![Call::StartFile { name: n.into(), opts: FOpts::m(0) }, Call::Write(b"0123456789".to_vec())];
+    match label {
+        // the old directory + end record (about 200 bytes) are longer than the new entry's header and padding
+        "append:3-small-entries" => {
+            let mut c = vec![Call::SetComment(b"old comment".to_vec())];
+            c.extend(small("o1"));
+            c.extend(small("o2"));
+            c.extend(small("o3"));
+            c.push(Call::Finish);
+            Some(exec(&c, &[]).1)
+        }
+        "append:1-entry+2000-byte-comment" => {
+            let mut c = vec![Call::SetComment(vec![b'k'; 2000])];
+            c.extend(small("o1"));
+            c.push(Call::Finish);
+            Some(exec(&c, &[]).1)
+        }
+        _ => None,
+    }
+}
+
+/// run the calls on a fresh writer, or on new_append over the prelude's base archive
+fn run_calls(prelude: &str, calls: &[Call]) -> (Vec<Res>, Vec<u8>) {
+    match append_base(prelude) {
+        None => exec(calls, &[]),
+        Some(b) => {
+            let (mut res, bytes) = exec_append(&b, calls, &[]);
+            let first = res.remove(0);
+            if !first.is_ok() {
+                // keep the shape: every call "fails" with the new_append error
+                return (calls.iter().map(|_| first.clone()).collect(), bytes);
+            }
+            (res, bytes)
+        }
+    }
+}
+
 /// preceding states: (label, calls before the aligned entry)
 fn preludes() -> Vec<(&'static str, Vec<Call>)> {
     let f = |n: usize| vec![Call::StartFile { name: "p".into(), opts: FOpts::m(0) }, Call::Write(vec![7u8; n])];
-    vec![("empty", vec![]), ("1-byte-entry", f(1)), ("30-byte-entry", f(30)), ("31-byte-entry", f(31)), ("4095-byte-entry", f(4095)), ("65500-byte-entry", f(65_500)), ("200000-byte-entry", f(200_000)), ("deflated-entry+dir", vec![Call::StartFile { name: "q".into(), opts: FOpts::m(8) }, Call::Write(vec![9u8; 500]), Call::AddDir { name: "d".into(), opts: FOpts::m(0) }])]
+    vec![
+        ("append:3-small-entries", vec![]),
+        ("append:1-entry+2000-byte-comment", f(3)),("empty", vec![]), ("1-byte-entry", f(1)), ("30-byte-entry", f(30)), ("31-byte-entry", f(31)), ("4095-byte-entry", f(4095)), ("65500-byte-entry", f(65_500)), ("200000-byte-entry", f(200_000)), ("deflated-entry+dir", vec![Call::StartFile { name: "q".into(), opts: FOpts::m(8) }, Call::Write(vec![9u8; 500]), Call::AddDir { name: "d".into(), opts: FOpts::m(0) }])]
 }
 
 fn check_align(align: u16, prelude: &(&'static str, Vec<Call>), name_len: usize, large: bool, method: u16, st: &mut Stats, order: u64) {
@@ -28,7 +69,7 @@ fn check_align(align: u16, prelude: &(&'static str, Vec<Call>), name_len: usize,
     calls.push(Call::Write(content.clone()));
     calls.push(Call::Finish);
     let case = || json!({"kind": "align", "align": align, "prelude": prelude.0, "name_len": name_len, "large": large, "method": method});
-    let (res, bytes) = exec(&calls, &[]);
+    let (res, bytes) = run_calls(prelude.0, &calls);
     if let Some((c, r)) = calls.iter().zip(&res).find(|(_, r)| r.is_panic()) {
         st.class("PANIC");
         st.viol(format!("align/panic/{}/{}", c.opname(), panic_site(&r.show())), format!("align {align} after {} (name {name_len} bytes, large {large}): {} panicked: {}", prelude.0, c.opname(), r.show()), case(), order);
@@ -140,6 +181,11 @@ fn record(id: u16, size: usize, tail: u8) -> Vec<u8> {
 
 /// variant: 0 shared, 1 local-only, 2 central-only, 3 different local and central
 fn check_extra(local: &[u8], central: &[u8], variant: u8, large: bool, st: &mut Stats, order: u64, what: &str) {
+    check_extra_in(local, central, variant, large, st, order, what, "")
+}
+
+/// `prelude`: "" for a fresh writer, or the label of an append base (the entry is started after new_append)
+fn check_extra_in(local: &[u8], central: &[u8], variant: u8, large: bool, st: &mut Stats, order: u64, what: &str, prelude: &str) {
     st.evals += 1;
     let content = b"extra data entry".to_vec();
     let mut calls = vec![Call::StartFile { name: "before".into(), opts: FOpts::m(0) }, Call::Write(b"b".to_vec())];
@@ -172,8 +218,8 @@ fn check_extra(local: &[u8], central: &[u8], variant: u8, large: bool, st: &mut 
     };
     calls.push(Call::Write(content.clone()));
     calls.push(Call::Finish);
-    let case = || json!({"kind": "extra", "local": hex(local), "central": hex(central), "variant": variant, "large": large});
-    let (res, bytes) = exec(&calls, &[]);
+    let case = || json!({"kind": "extra", "local": hex(local), "central": hex(central), "variant": variant, "large": large, "prelude": prelude});
+    let (res, bytes) = run_calls(prelude, &calls);
     if let Some((c, r)) = calls.iter().zip(&res).find(|(_, r)| r.is_panic()) {
         st.class("PANIC");
         st.viol(format!("extra/panic/{}/{}", c.opname(), panic_site(&r.show())), format!("{what}: {} panicked: {}", c.opname(), r.show()), case(), order);
@@ -284,7 +330,7 @@ fn replay(case: &Value, st: &mut Stats) {
         let p = pre.iter().find(|p| p.0 == case["prelude"].as_str().unwrap_or("empty")).unwrap_or(&pre[0]);
         check_align(case["align"].as_u64().unwrap_or(0) as u16, p, case["name_len"].as_u64().unwrap_or(1) as usize, case["large"].as_bool().unwrap_or(false), case["method"].as_u64().unwrap_or(0) as u16, st, 0);
     } else {
-        check_extra(&crate::util::unhex(case["local"].as_str().unwrap_or("")), &crate::util::unhex(case["central"].as_str().unwrap_or("")), case["variant"].as_u64().unwrap_or(0) as u8, case["large"].as_bool().unwrap_or(false), st, 0, "replay");
+        check_extra_in(&crate::util::unhex(case["local"].as_str().unwrap_or("")), &crate::util::unhex(case["central"].as_str().unwrap_or("")), case["variant"].as_u64().unwrap_or(0) as u8, case["large"].as_bool().unwrap_or(false), st, 0, "replay", case["prelude"].as_str().unwrap_or(""));
     }
 }
 
@@ -305,7 +351,7 @@ pub fn run(args: &Args) -> i32 {
         v
     };
     ctx.rule = format!(
-        "E-PROD. Alignment: {} alignment values ({}) x 8 preceding archive states (empty; entries of 1/30/31/4095/65 500/200 000 bytes, i.e. data offsets below and above 2^16; deflated entry + directory) x 3 name lengths chosen so that the header ends at 0, 1, -1 modulo the alignment \
+        "E-PROD. Alignment: {} alignment values ({}) x 10 preceding archive states (two archives re-opened with new_append whose old directory/comment is longer than the new header; empty; entries of 1/30/31/4095/65 500/200 000 bytes, i.e. data offsets below and above 2^16; deflated entry + directory) x 3 name lengths chosen so that the header ends at 0, 1, -1 modulo the alignment \
          x large_file {{no, yes}} x method {{stored, deflated}}: an Ok result must put the data at a multiple of the alignment (independent parser and ZipFile::data_start) and a strictly valid archive (the padding record's ID and the returned padding length are documented but not stated by the property: counted only); Err is a refusal. \
          Extra data: all lists of <= 3 records over 9 header IDs x sizes {{0, 1, 4}} (+ 65531 singly) x tails {{clean, 1-3 stray bytes, overlong size field}} x placement {{shared, local-only, central-only, different local+central}} x large_file; and EVERY header ID 0..=65535 singly. \
          Oracle: reference rules transcribed from APPNOTE (reject truncated / ID 0x0001 / reserved IDs / oversize; accept the rest; IDs listed only in some revisions: either) and verbatim placement. distinct_nontrivial = distinct accepted cases (hash set).",
@@ -324,7 +370,7 @@ pub fn run(args: &Args) -> i32 {
         for (li, large) in [false, true].into_iter().enumerate() {
             let mut calls = p.1.clone();
             calls.push(Call::StartExtra { name: "n".into(), opts: FOpts { large, ..FOpts::m(0) } });
-            let (res, _) = exec(&calls, &[]);
+            let (res, _) = run_calls(p.0, &calls);
             row[li] = match res.last() {
                 Some(Res::Ok(v)) => *v,
                 other => {
@@ -419,6 +465,12 @@ pub fn run(args: &Args) -> i32 {
             check_extra(l, central_alt_r, 3, large, st, i, "record list");
             check_extra(central_alt_r, l, 3, large, st, i, "record list");
         }
+        // the same through a writer re-opened on an existing archive (every list of <= 2 records, every 5th longer one)
+        if l.len() <= 24 || i % 5 == 0 {
+            for v in 0..4u8 {
+                check_extra_in(l, if v == 3 { central_alt_r } else { l }, v, i % 2 == 0, st, (2 << 40) + i, "record list (appending)", "append:3-small-entries");
+            }
+        }
         if i == 500 {
             st.sample(json!({"kind":"extra","list":hex(l)}));
         }
@@ -429,6 +481,9 @@ pub fn run(args: &Args) -> i32 {
         let r = record(id as u16, 2, 0);
         check_extra(&r, &r, 0, false, st, (1 << 40) + id, "single header ID");
         check_extra(&[], &r, 2, id % 2 == 0, st, (1 << 40) + id, "single header ID");
+        if id % 16 == 1 || id < 64 {
+            check_extra_in(&r, &r, 0, false, st, (3 << 40) + id, "single header ID (appending)", "append:1-entry+2000-byte-comment");
+        }
     });
     ctx.stats.merge(s);
     ctx.bound("header_ids_singly", json!("all 65536"));
